@@ -350,6 +350,10 @@ def obligations(tier):  # noqa: F811
         for si in range(3):
             obs.append(Obligation(f"C01/H/{kind}/stasher{si}", "H", "references to hidden columns through an earlier table object (native differential)", make_h(kind, si), functions=fns,
                                   bounded=f"one column-hiding step >> every step V of the alphabet >> with / without alias(keep_col_refs=True) >> 3 uses of the hidden column; input `{kind}`"))
+    from . import c06
+
+    obs.append(Obligation("C01/J/outer_join_matrix", "J", "exact row combinations of inner / left / full joins with computed, constant, filtered, aliased and nested operands: Polars and SQLite against a Python oracle (= C06/N5)", c06.n5_run, functions=fns,
+                          bounded="the C06/N5 join matrix: 20 predicate shapes x 3 join kinds x 13 operand variants x 2 backends"))
     for ch in range(8):
         obs.append(Obligation(f"C01/O/operator_sweep/{ch}", "O", "every operator x accepted signature in a one-verb pipeline: Polars vs SQLite, row by row", make_o(ch, 8), functions=fns[:2] + [H.fn_info(H.polars_backend.compile_col_expr), H.fn_info(H.sql_backend.SqlImpl.compile_col_expr)],
                               bounded="all operators x signatures over 7 sample types (columns, positional literals, an untyped None; arity <= 3) x 2 column choices (aggregates: grouped / ungrouped / as window with and without partition / with filter=; window functions: with and without partition_by) on one 6-row table (nulls, negative and mixed-sign operands); non-finite results compared as NULL"))
